@@ -16,6 +16,9 @@ def run(ctx):
     RT.counters(ctx, "R18.e")
     RS.reset_before_read(ctx, "RS", only_owner="store::trigram_index::TrigramIndex", floor=1)
     RT.only_store_add_feeds_index(ctx, "R18.f")
+    RT.postings_unconditional(ctx, "R18.g")
+    from . import r_rank as RR
+    RR.bounded_selection(ctx, "R06.a")
     return info("R18.a: candidates are filtered by count > 0 before the cap; R18.b: cap is size × 10 and the comparator is "
                 "[(count, Desc)]; R18.c: the gram generator sorts and de-duplicates before every return, add and prepare use "
                 "only that generator, the gram iterator starts at width 1 and grows to 3; R18.d: positions are the enumerate "
